@@ -35,7 +35,7 @@ def tricky(o):
 def run(pid, tier, replay):
     chk = core.Check(pid, "model_checking", tier)
     rm.local_known(chk, ["C22"])
-    binp = core.build("rules")
+    binp = rm.build("rules")
     if replay:
         return do_replay(chk, binp, replay)
     rm.stage(chk, "start")
